@@ -55,7 +55,7 @@ inductive GjkExit where
 
 /-- `relative_eq!(x, 0.0)` with the default `epsilon = max_relative = f64::EPSILON`: `|x| ≤ ε` (the relative test
 `|x| ≤ |x|·ε` can only hold for `x = 0`). -/
-@[inline] def relEqZero (x : K) : Bool := decide (nabs x ≤ defaultEps)
+@[inline] def gjkRelEqZero (x : K) : Bool := decide (nabs x ≤ defaultEps)
 
 /-- `Unit::try_new_and_get(v, min_norm)`: `None` if `|v| ≤ min_norm`, else `(v / |v|, |v|)` -/
 def tryNewAndGet (v : V3 K) (minNorm : K) : Option (V3 K × K) :=
@@ -66,7 +66,7 @@ def tryNewAndGet (v : V3 K) (minNorm : K) : Option (V3 K × K) :=
 def lineToiWithHalfspace (center normal o d : V3 K) : Option K :=
   let dpos := center.sub o
   let denom := normal.dot d
-  if relEqZero denom then none else some (normal.dot dpos / denom)
+  if gjkRelEqZero denom then none else some (normal.dot dpos / denom)
 
 /-- `ray_toi_with_halfspace` -/
 def rayToiWithHalfspace (center normal o d : V3 K) : Option K :=
@@ -172,7 +172,7 @@ def gjkLoop {S : Type} (ops : SimplexOps K S) (supp : V3 K → V3 K) (big : K) (
 def minkowskiRayCast {S : Type} (ops : SimplexOps K S) (supp : V3 K → V3 K) (big : K) (dim : Nat) (ray : Ray3 K)
     (maxToi : K) : GjkRes K :=
   let len := ray.d.norm
-  if relEqZero len then ⟨none, .zeroDir, true⟩
+  if gjkRelEqZero len then ⟨none, .zeroDir, true⟩
   else
     let u := ray.d.sdiv len
     let dir := u.neg
